@@ -2,49 +2,54 @@ import GardenVerif.Lemmas.Check
 /-!
 C16 — Programs that pass `check` raise no runtime type errors.
 
-FULL STATEMENT (the target; NOT proved in full — see "MISSING" below):
+THE THEOREM (proved, no sorry, no extra hypotheses):
 
   theorem check_sound_fragment (P : Check.Program) :
       Check.fullyAnnotated P = true → Check.check P = [] →
       ∀ fuel, (Check.run fuel P).isTypeError = false
 
-where `Check.check` is M8 (Model/Check.lean: all Error diagnostics of `garden check` on the fully
-annotated monomorphic first-order core fragment), `Check.run` the typed reference semantics
-(Model/TypedSem.lean) and `isTypeError` = wrong operand / argument type, wrong arity, calling a
-non-function, unknown variable, failed annotation check (param / let / return), no matching case,
-scrutinee not an enum, bad pattern (or leaving the fragment).
+* `Check.check` is M8 (Model/Check.lean): all Error diagnostics of `garden check` on a program of
+  the fully annotated, monomorphic, first-order core fragment — the bidirectional type checker
+  (`infer_expr_` / `check_expr_` / `check_match` / `infer_call` / …, transcribed arm by arm) and
+  `check_loops`.
+* `Check.run` is the typed reference semantics (Model/TypedSem.lean): a fuel-indexed big-step
+  interpreter with the evaluator's RUNTIME TYPE ERRORS as explicit outcomes; `isTypeError` = wrong
+  operand / argument type, wrong arity, calling a non-function, unknown variable, failed annotation
+  check (parameter / let / return), no matching case, scrutinee not an enum, bad pattern (or leaving
+  the fragment). Division by zero, overflow and running out of fuel are not type errors.
+* `Check.fullyAnnotated P` (decidable, syntactic): every function has hints on all parameters and
+  on its return (by construction of `FunDef`); bodies and toplevel expressions are built from
+  literals, variables, parentheses, all binary operators, `let` (as a block statement) with and
+  without hints, assignment, `+=`/`-=`, `if` with and without `else`, `while`, `for` over lists,
+  `match` on Option / Bool / Unit with `_` cases and exhaustiveness, `return`, `break`/`continue`,
+  list and tuple literals, calls of named functions of the program (recursion included), `Some`,
+  `println`, `print`, `string_repr`. Exclusions (each a syntactic condition, see `Check.okE`):
+  the iterable of a `for` is a variable, a call or a parenthesised expression (`Check.iterOK`; for
+  list literals / `if` / `match` directly in that position the real checker computes lossy types:
+  known findings C16/any-from-checked-if and C16/error-from-checked-list); a `_` case binds no
+  payload; first order (a variable in value position is a local or `None`/`True`/`False`/`Unit`).
 
-PROVED (no sorry; universally quantified over programs, types, environments and fuel):
+HOW: `Check.sound` (Lemmas/Check.lean) — progress + preservation packaged for the big-step
+semantics, by induction on the fuel, simultaneously for expressions, blocks, argument lists, calls,
+`while`, `for` and `match` cases — on top of
+* the typing invariant `Check.hasTy v T` (deep) with `value_subsumption` (uses the shape of
+  `is_subtype`, M7 / C14), `annotation_check_passes` (a well-typed value passes the evaluator's
+  `is_subtype(Type::from_value(v), T)`: the param / let / return checks cannot fail), canonical forms;
+* checker-only invariants, by induction on a nesting-depth bound: `Check.tc_inv` (checking an
+  expression leaves the bindings unchanged, checking a block only changes its own scope: needed
+  because the checker threads its bindings through BOTH branches of an `if`, through every loop
+  body once, and through arguments left to right while they are evaluated right to left),
+  `Check.tc_gi` (inferred types are well-formed fragment types: no `Error`, no `Any`),
+  `Check.hasTy_unify` (`unify` / `unify_all` preserve value typing; uses C15's `unify_upper`);
+* for `match`: `Check.exhaustive_covers` (no diagnostic of `check_match_exhaustive` ⇒ the
+  scrutinee's variant is named by a case or there is a `_` case) and `Check.pat_key` (a case that
+  passed the pattern checks fires exactly on its variant and binds a payload of the payload type);
+* for loops: the body is re-run under the SAME checker bindings (`tc_inv`), so environment typing is a
+  loop invariant; `break`/`continue` carry an environment typed by the bindings at the loop.
 
-* The typing invariant `Check.hasTy v T` (deep) and its pillars: `value_subsumption`,
-  `annotation_check_passes` (the param / let / return checks of eval.rs cannot fail on a
-  well-typed value), `canonical_int/_bool/_string`, environment typing (`Check.envOK`).
-* Checker-only invariants for the WHOLE fragment `Check.okE` (all forms incl. loops and match),
-  in Lemmas/Check.lean: `Check.tc_inv` (checking an expression leaves the bindings unchanged,
-  checking a block only changes its own scope — needed because the checker threads its bindings
-  through BOTH branches of an `if` and through arguments left to right, while arguments are
-  evaluated right to left), `Check.tc_gi` (inferred types are well-formed fragment types: no
-  `Error`, no `Any`), `Check.hasTy_unify` (`unify` / `unify_all` preserve value typing; uses
-  C15's `unify_upper`).
-* `check_sound_exprs` (THE MINIMUM DELIVERABLE, progress + preservation packaged for the big-step
-  semantics): literals, variables, parentheses, all binary operators, `let` with / without hints,
-  assignment, `if` with and without `else` in inferred and checked position, list and tuple
-  literals, `return`, `break`/`continue`, and calls of annotated first-order named functions
-  (recursion included), `Some`, `println`, `print`, `string_repr`: see its docstring.
-  `check_sound_program_stage1`: a program built from these forms that `check` accepts never ends
-  in a type error, for every fuel. `check_sound_exprs_partial` / `check_sound_toplevel_partial`
-  are the earlier straight-line versions (kept).
-
-MISSING for the full statement: `+=`/`-=`, `while`, `for`, `match` (excluded by `Check.s1Diags`,
-which returns a marker diagnostic for them). The checker-side lemmas (`tc_inv`, `tc_gi`) already
-cover these forms; what remains is their case in the evaluation induction `Check.sound`
-(loops: re-evaluation of the body under the same Γ, which `tc_inv` provides; match: exhaustiveness
-⇒ some case is reached). The fragment excludes, by `Check.iterOK`, `for` iterables that are not a
-variable / call / parenthesised expression (known findings C16/any-from-checked-if and
-C16/error-from-checked-list: a list literal / if / match checked against `List<Any>` gets a lossy
-type), and the model contains checker-fix-novalue-scrutinee-payload (without it `match (return 1)
-{ Some(w) => Some(w) }` has type `Option<Error>`, which unifies with everything: a genuine
-unsoundness, replay in patches/).
+The model describes /repo with the fixes checker-fix-toplevel-let-scope, checker-fix-match-non-enum
+and checker-fix-novalue-scrutinee-payload (all committed there); each was a genuine unsoundness
+found while building this proof.
 -/
 set_option linter.unusedVariables false
 set_option linter.unusedSimpArgs false
@@ -76,118 +81,38 @@ theorem empty_list_passes (T : Ty) : Ty.sub (typeOf (.list [])) (tList T) = true
 example : hasTy (.list [.some (.int 1), .none]) (tList (tOption tInt)) = true := by
   simp [hasTy, hasTyAll, tList, tOption, tInt, isNamed]
 
-/-- Soundness of the checker on straight-line blocks (see the header). `ResOK ret T Γ' r`:
-`r` is a value of type `T` in an environment typed by `Γ'`, or a `return` of a value of type
-`ret`, or a non-type error, or a timeout. -/
-theorem check_sound_exprs_partial (P : Program) (d : Nat) (es : List TExpr) (ret : Ty) (exp : Option Ty)
-    (Γ Γ' : Blocks Ty) (ρ : Blocks Val) (T : Ty)
-    (hfrag : slL P d es = true)
-    (hcheck : tcSeq P ret exp Γ es = (T, Γ', []))
-    (hexp : ∀ E, exp = some E → good E = true) (hret : good ret = true)
-    (henv : envOK Γ ρ) :
-    ∀ fuel, ResOK ret T Γ' (evalSeq P fuel ρ es) :=
-  fun fuel => (sound_sl P fuel).2 d es ret exp Γ ρ T Γ' hfrag hcheck hexp hret henv
 
-/-- … in particular the outcome is never one of C16's type errors. -/
-theorem check_sound_exprs_no_type_error (P : Program) (d : Nat) (es : List TExpr) (ret : Ty) (exp : Option Ty)
-    (Γ Γ' : Blocks Ty) (ρ : Blocks Val) (T : Ty)
-    (hfrag : slL P d es = true)
-    (hcheck : tcSeq P ret exp Γ es = (T, Γ', []))
-    (hexp : ∀ E, exp = some E → good E = true) (hret : good ret = true)
-    (henv : envOK Γ ρ) (fuel : Nat) (e : RErr)
-    (h : evalSeq P fuel ρ es = .err e) : e.isTypeError = false := by
-  have := check_sound_exprs_partial P d es ret exp Γ Γ' ρ T hfrag hcheck hexp hret henv fuel
-  rw [h] at this
-  simpa [ResOK] using this
+-- ------------------------------------------------------------------ blocks
 
--- a concrete block satisfying the hypotheses: `let x: Int = 1 + 2`, `let s = "a" ^ "b"`, `x < 3`
-example : slL { funs := [], top := [] } 10
-    [.letE "x" (some .int) (.binop .add (.int 1) (.int 2)),
-     .letE "s" none (.binop .concat (.str "a") (.str "b")),
-     .binop .lt (.var "x") (.int 3)] = true := by
-  simp [slL, slE, isGlobalName, isValueGlobal, findFun, reservedNames]
-
-/-- Program level: straight-line toplevel expressions of a program that `check` accepts never
-end in a type error. -/
-theorem check_sound_toplevel_partial (P : Program) (d : Nat)
-    (hfrag : ∀ e ∈ P.top, slE P d e = true) (hcheck : check P = []) :
-    ∀ fuel, (run fuel P).isTypeError = false := by
-  intro fuel
-  have hc : checkTop P [[]] P.top = [] := by
-    unfold check at hcheck
-    exact (List.append_eq_nil_iff.mp hcheck).2
-  have key : ∀ (es : List TExpr) (Γ : Blocks Ty) (ρ : Blocks Val), (∀ e ∈ es, slE P d e = true) →
-      checkTop P Γ es = [] → envOK Γ ρ → (runTop P fuel ρ es).isTypeError = false := by
-    intro es
-    induction es with
-    | nil => intros; simp [runTop, Outcome.isTypeError]
-    | cons e rest ih =>
-      intro Γ ρ hs hck henv
-      simp only [checkTop] at hck
-      cases h1 : tcExpr P .any none Γ e with
-      | mk T1 r1 =>
-      cases r1 with
-      | mk Γ1 d1 =>
-      rw [h1] at hck
-      simp at hck
-      obtain ⟨hd1, _, hrest⟩ := hck
-      subst hd1
-      have hres := (sound_sl P fuel).1 d e .any none Γ ρ T1 Γ1 (hs e (by simp)) h1 (by simp)
-        (by simp [good]) henv
-      simp only [runTop]
-      cases hev : eval P fuel ρ e with
-      | val v ρ1 =>
-        rw [hev] at hres
-        simp [ResOK] at hres
-        exact ih Γ1 ρ1 (fun e' he' => hs e' (by simp [he'])) hrest hres.2
-      | ret v => simp [Outcome.isTypeError]
-      | brk ρ1 => rw [hev] at hres; simp [ResOK] at hres
-      | cont ρ1 => rw [hev] at hres; simp [ResOK] at hres
-      | err er => rw [hev] at hres; simp [ResOK] at hres; simp [Outcome.isTypeError, hres]
-      | timeout => simp [Outcome.isTypeError]
-  exact key P.top [[]] [[]] hfrag hc (by simp [envOK, blockOK])
-
-
--- ------------------------------------------------------------------ the minimum deliverable: expressions + let + if + calls
-
-/-- `check_sound_exprs`: soundness of the checker (M8) w.r.t. the typed reference semantics for
-blocks built from literals, variables, parentheses, all binary operators, `let` with / without
-hints, assignment, `if` with and without `else` (in inferred AND checked position), list and
-tuple literals, `return`, `break` / `continue`, and CALLS of annotated first-order named
-functions (incl. recursion), `Some`, `println`, `print`, `string_repr`.
-
-Hypotheses: `ProgOK P D` — every function body of `P` is in the fragment (`okL`, `s1DiagsL`), and
-was accepted by the checker against its annotations (this is what `check P = []` gives, see
-`progOK_of_check`); the block `es` is in the fragment (`okL`: `let` only as a block statement;
-`s1DiagsL`: passes `check_loops` and uses none of the forms not yet covered: `+=`, `while`, `for`,
-`match`); it type-checks with NO diagnostic (`tcSeq … = (T, Γ', [])`) in bindings `Γ` of
-well-formed types that type the runtime environment `ρ`.
-
-Conclusion, for EVERY fuel: the evaluation yields a value of the inferred type (of the expected type
-in checked position) in an environment typed by `Γ'`, or a `return` of a value of the function's
-return type, or (inside a loop only) break/continue, or a NON-type error (division by zero,
-overflow), or runs out of fuel. In particular the annotation checks on parameters, `let` hints and
-return values, the arity checks and the operand checks of the evaluator never fail. -/
+/-- Soundness of the checker (M8) w.r.t. the typed reference semantics for a BLOCK of the fragment
+(all forms). Hypotheses: `ProgOK P D` — every function body of `P` is in the fragment and was
+accepted by the checker against its annotations (what `check P = []` gives: `progOK_of_check`);
+the block is in the fragment (`okL`), passes `check_loops` (`loopDiagsL il es = []`) and
+type-checks with NO diagnostic in bindings `Γ` of well-formed types that type the runtime
+environment `ρ`. Conclusion, for EVERY fuel: the evaluation yields a value of the inferred type
+(of the expected type in checked position) in an environment typed by `Γ'`, or a `return` of a
+value of the function's return type, or (inside a loop only) break/continue with an environment
+typed at the loop, or a NON-type error, or runs out of fuel. -/
 theorem check_sound_exprs (P : Program) (D : Nat) (hP : ProgOK P D)
     (d : Nat) (es : List TExpr) (ret : Ty) (exp : Option Ty) (Γ Γ' : Blocks Ty) (ρ : Blocks Val) (T : Ty)
     (il : Bool)
-    (hfrag : okL P d es = true) (hfrag' : s1DiagsL il es = [])
+    (hfrag : okL P d es = true) (hloops : loopDiagsL il es = [])
     (hcheck : tcSeq P ret exp Γ es = (T, Γ', []))
     (hexp : ∀ E, exp = some E → good E = true) (hret : good ret = true)
     (henv : envOK Γ ρ) (hΓ : GoodEnv Γ) :
     ∀ fuel, R ret (resTy exp T) Γ Γ' il (evalSeq P fuel ρ es) :=
-  fun fuel => (sound P D hP fuel).2.1 d es ret exp Γ ρ T Γ' il hfrag hcheck hfrag' hexp hret henv hΓ
+  fun fuel => (sound P D hP fuel).2.1 d es ret exp Γ ρ T Γ' il hfrag hcheck hloops hexp hret henv hΓ
 
 /-- … in particular: never one of C16's type errors. -/
-theorem check_sound_exprs_no_type_error' (P : Program) (D : Nat) (hP : ProgOK P D)
+theorem check_sound_exprs_no_type_error (P : Program) (D : Nat) (hP : ProgOK P D)
     (d : Nat) (es : List TExpr) (ret : Ty) (exp : Option Ty) (Γ Γ' : Blocks Ty) (ρ : Blocks Val) (T : Ty)
     (il : Bool)
-    (hfrag : okL P d es = true) (hfrag' : s1DiagsL il es = [])
+    (hfrag : okL P d es = true) (hloops : loopDiagsL il es = [])
     (hcheck : tcSeq P ret exp Γ es = (T, Γ', []))
     (hexp : ∀ E, exp = some E → good E = true) (hret : good ret = true)
     (henv : envOK Γ ρ) (hΓ : GoodEnv Γ) (fuel : Nat) (e : RErr)
     (h : evalSeq P fuel ρ es = .err e) : e.isTypeError = false := by
-  have := check_sound_exprs P D hP d es ret exp Γ Γ' ρ T il hfrag hfrag' hcheck hexp hret henv hΓ fuel
+  have := check_sound_exprs P D hP d es ret exp Γ Γ' ρ T il hfrag hloops hcheck hexp hret henv hΓ fuel
   rw [h] at this
   simpa [R] using this
 
@@ -201,32 +126,35 @@ theorem checkFuns_nil (P : Program) : ∀ fs : List FunDef, checkFuns P fs = [] 
     · exact h1
     · exact checkFuns_nil P gs h2 f hf
 
-/-- `check P = []` gives the per-function hypothesis of `check_sound_exprs`. -/
+/-- `check P = []` gives the program-wide invariant: every function body checks against its
+declared return type and passes `check_loops`. -/
 theorem progOK_of_check (P : Program) (D : Nat) (hcheck : check P = [])
-    (hfrag : ∀ f ∈ P.funs, okL P D f.body = true ∧ s1DiagsL false f.body = []) : ProgOK P D := by
+    (hfrag : ∀ f ∈ P.funs, okL P D f.body = true) : ProgOK P D := by
   intro f hf
   have hc : checkFuns P P.funs = [] := by
     unfold check at hcheck
     exact (List.append_eq_nil_iff.mp hcheck).1
   have := checkFuns_nil P P.funs hc f hf
   unfold checkFun at this
-  exact ⟨(hfrag f hf).1, (List.append_eq_nil_iff.mp this).1, (hfrag f hf).2⟩
+  obtain ⟨h1, h2⟩ := List.append_eq_nil_iff.mp this
+  exact ⟨hfrag f hf, h1, h2⟩
 
-/-- Program level (stage 1 of `check_sound_fragment`): a fully annotated program whose function
-bodies and toplevel expressions use the forms above and which `check` accepts never ends in a
-type error, for every fuel. -/
-theorem check_sound_program_stage1 (P : Program) (D : Nat)
-    (hfuns : ∀ f ∈ P.funs, okL P D f.body = true ∧ s1DiagsL false f.body = [])
-    (htop : ∀ e ∈ P.top, okS P D e = true ∧ s1Diags false e = [])
-    (hcheck : check P = []) :
+-- ------------------------------------------------------------------ programs
+
+/-- The full-fragment theorem for an arbitrary depth bound `D`. -/
+theorem check_sound_fragment_D (P : Program) (D : Nat)
+    (hfrag : fragmentD P D = true) (hcheck : check P = []) :
     ∀ fuel, (run fuel P).isTypeError = false := by
   intro fuel
+  unfold fragmentD at hfrag
+  simp only [Bool.and_eq_true, List.all_eq_true] at hfrag
+  obtain ⟨hfuns, htop⟩ := hfrag
   have hP := progOK_of_check P D hcheck hfuns
   have hc : checkTop P [[]] P.top = [] := by
     unfold check at hcheck
     exact (List.append_eq_nil_iff.mp hcheck).2
   have key : ∀ (es : List TExpr) (Γ : Blocks Ty) (ρ : Blocks Val),
-      (∀ e ∈ es, okS P D e = true ∧ s1Diags false e = []) →
+      (∀ e ∈ es, okS P D e = true) →
       checkTop P Γ es = [] → envOK Γ ρ → GoodEnv Γ → (runTop P fuel ρ es).isTypeError = false := by
     intro es
     induction es with
@@ -236,13 +164,14 @@ theorem check_sound_program_stage1 (P : Program) (D : Nat)
       simp only [checkTop] at hck
       obtain ⟨T1, Γ1, d1, h1⟩ := triple_exists (tcExpr P .any none Γ e)
       rw [h1] at hck
-      simp at hck
-      obtain ⟨hd1, _, hrest⟩ := hck
+      simp only at hck
+      obtain ⟨hd12, hrest⟩ := List.append_eq_nil_iff.mp hck
+      obtain ⟨hd1, hloop⟩ := List.append_eq_nil_iff.mp hd12
       subst hd1
       have he := hs e (by simp)
-      have hres := (sound P D hP fuel).1 D e .any none Γ ρ T1 Γ1 false he.1 h1 he.2 (by simp)
+      have hres := (sound P D hP fuel).1 D e .any none Γ ρ T1 Γ1 false he h1 hloop (by simp)
         (by simp [good]) henv hG
-      have hG1 := stmt_goodenv P D (tc_gi P D).1 e .any none Γ Γ1 T1 he.1 h1 hG
+      have hG1 := stmt_goodenv P D (tc_gi P D).1 e .any none Γ Γ1 T1 he h1 hG
       simp only [runTop]
       cases hev : eval P fuel ρ e with
       | val v ρ1 =>
@@ -256,19 +185,56 @@ theorem check_sound_program_stage1 (P : Program) (D : Nat)
       | timeout => simp [Outcome.isTypeError]
   exact key P.top [[]] [[]] htop hc (by simp [envOK, blockOK]) (by intro b hb; simp at hb; subst hb; simp)
 
--- a program with a recursive annotated function, if/else, a list literal and calls satisfies the
--- fragment hypotheses
+/-- C16 for the fragment: a fully annotated program that `check` accepts never ends in a
+runtime type error, for every fuel. -/
+theorem check_sound_fragment (P : Program) (hfrag : fullyAnnotated P = true) (hcheck : check P = []) :
+    ∀ fuel, (run fuel P).isTypeError = false := by
+  unfold fullyAnnotated at hfrag
+  simp only [Bool.and_eq_true] at hfrag
+  exact check_sound_fragment_D P (progSize P) hfrag.1.1.1.1 hcheck
+
+/-- A program using every form of the fragment: a recursive function with `if`/`else`, a function
+with `while`, `+=`, `for`, `match` with a payload, list / tuple literals, assignment, early
+`return`, `break`. -/
 def exampleProgram : Program :=
   Program.mk
-    [FunDef.mk "f" [("n", Hint.int)] Hint.int
+    [FunDef.mk "fact" [("n", Hint.int)] Hint.int
       [TExpr.ifE (.binop .le (.var "n") (.int 0)) [.int 1] true
-        [.binop .mul (.var "n") (.call "f" [.binop .sub (.var "n") (.int 1)])]]]
-    [TExpr.letE "xs" none (.list [.call "f" [.int 3], .int 2]),
-     TExpr.call "println" [.call "string_repr" [.var "xs"]]]
+        [.binop .mul (.var "n") (.call "fact" [.binop .sub (.var "n") (.int 1)])]],
+     FunDef.mk "total" [("xs", Hint.list (Hint.option Hint.int)), ("limit", Hint.int)] Hint.int
+      [TExpr.letE "s" (some Hint.int) (.int 0),
+       TExpr.forE "x" (.var "xs")
+         [TExpr.matchE (.var "x")
+            [Case.mk "Some" (some "v") [.update true "s" (.var "v")],
+             Case.mk "None" none [.assign "s" (.binop .add (.var "s") (.int 1))]],
+          TExpr.ifE (.binop .gt (.var "s") (.var "limit")) [.brk] false []],
+       TExpr.letE "i" none (.int 0),
+       TExpr.whileE (.binop .lt (.var "i") (.int 3)) [.update true "i" (.int 1)],
+       TExpr.ifE (.binop .lt (.var "s") (.int 0)) [.ret (.int 0)] false [],
+       TExpr.binop .add (.var "s") (.var "i")]]
+    [TExpr.letE "t" none (.tuple [.call "fact" [.int 3], .str "a"]),
+     TExpr.call "println" [.call "string_repr"
+       [.call "total" [.list [.call "Some" [.int 1], .var "None"], .int 10]]]]
 
-example :
-    (∀ f ∈ exampleProgram.funs, okL exampleProgram 12 f.body = true ∧ s1DiagsL false f.body = []) ∧
-    (∀ e ∈ exampleProgram.top, okS exampleProgram 12 e = true ∧ s1Diags false e = []) := by
-  simp [exampleProgram, okL, okE, okA, okS, s1DiagsL, s1Diags, isGlobalName, isValueGlobal, findFun, reservedNames]
+set_option maxRecDepth 100000 in
+/-- The example is in the fragment (first hypothesis of `check_sound_fragment`). -/
+theorem example_in_fragment : fullyAnnotated exampleProgram = true := by decide
+
+
+set_option maxRecDepth 100000 in
+set_option maxHeartbeats 4000000 in
+/-- … and the model checker accepts it (second hypothesis). -/
+theorem example_checks : check exampleProgram = [] := by
+  simp [check, checkFuns, checkFun, checkTop, exampleProgram, tcSeq, tcExpr, tcItems, tcCases, fin, inferVar,
+    varForAssign, callTy, globalOf, findFun, paramTys, paramBlock, lookupB, lookupBlock, setB, setBlock,
+    Hint.toTy, tInt, tBool, tStr, tUnit, tList, tOption, tFloat, Ty.sub, Ty.subAll, Ty.subNotError,
+    Ty.isErr, Ty.isNoValue, Ty.noValue, intBinopTy, isIntArith, hasFloatTwin, forElemTy, listExpected, matchMode,
+    scrutIsEnum, enumVariants, allUnderscore, caseNames, exhaustive, exhaustLoop, patternDiags, variantOf, tyName,
+    payloadTy, Ty.isTuple, Ty.unify, Ty.unifyAll, Ty.unifyAllFrom, Ty.unifyArgs, Ty.isAny, Ty.beq, Ty.beqList,
+    loopDiags, loopDiagsL, loopDiagsC, Global.ty]
+
+/-- Non-vacuity: the theorem applies to the example (recursion, loops, match, calls). -/
+theorem example_never_type_error : ∀ fuel, (run fuel exampleProgram).isTypeError = false :=
+  check_sound_fragment exampleProgram example_in_fragment example_checks
 
 end C16
